@@ -93,11 +93,15 @@ Fixpoint take_until (x : ascii) (l : str) : str :=
   match l with [] => [] | c :: r => if ceqb c x then [] else c :: take_until x r end.
 Fixpoint after_first (x : ascii) (l : str) : option str :=
   match l with [] => None | c :: r => if ceqb c x then Some r else after_first x r end.
-(* atomic_class  parser.py:599-616.   None = InvalidSmilesString *)
+(* atomic_class (module function of parser.py).   None = InvalidSmilesString: the text between the first and the
+   second ":" must be a non-empty run of ASCII digits; int() still fails on more than 4300 digits *)
 Definition atomic_class (l : str) : option (option Z) :=
   match after_first ":" l with
   | None => Some None
-  | Some r => match py_int (take_until ":" r) with Some z => Some (Some z) | None => None end
+  | Some r =>
+      let ds := take_until ":" r in
+      if (length ds =? 0) || negb (forallb is_digit ds) then None
+      else match py_int ds with Some z => Some (Some z) | None => None end
   end.
 
 Inductive bracket_res := BAtom (a : atom) | BInvalid | BCrash.
